@@ -1463,4 +1463,36 @@ def exS1 : State := runSched exGraph 100 (initState exGraph 3 [] []) [(0, exNoOu
 /-- `a` passed; net1 went on to `b`, was sent back to traverse (not rerun) and drop `a`, and started `b` -/
 def exS2 : State := runSched exGraph 100 (initState exGraph 3 [] []) [(0, exNoOut), (0, exPass)]
 
+/-- the same suite expanded lazily: initially only the shared root (4) and the flat test `b` (5) exist, the four parsed
+nodes are hidden; a worker reveals its own copy of `b` and the ancestors of that copy when it reaches the flat node -/
+def exLazy : Graph :=
+  { workers := exGraph.workers,
+    nodes := [
+      { cls := 0, owner := some 0, name := "all.a.vms.vm1.nets.localhost.net1", pfx := "1a1", objs := ["vm1"],
+        setup := [(4, ["vm1"])], cleanup := [(2, ["vm1"])] },
+      { cls := 0, owner := some 1, name := "all.a.vms.vm1.nets.localhost.net2", pfx := "1a1", objs := ["vm1"],
+        setup := [(4, ["vm1"])], cleanup := [(3, ["vm1"])] },
+      { cls := 1, owner := some 0, name := "all.b.vms.vm1.nets.localhost.net1", pfx := "2a1", objs := ["vm1"],
+        sets := [("vm1", "b")], unsetMode := [("vm1", "fi")], setup := [(0, ["vm1"]), (5, [])] },
+      { cls := 1, owner := some 1, name := "all.b.vms.vm1.nets.localhost.net2", pfx := "2a1", objs := ["vm1"],
+        sets := [("vm1", "b")], unsetMode := [("vm1", "fi")], setup := [(1, ["vm1"]), (5, [])] },
+      { cls := 2, owner := none, name := "all.internal.stateless.noop", pfx := "1", flat := true, sharedRoot := true,
+        cleanup := [(5, []), (0, ["vm1"]), (1, ["vm1"])] },
+      { cls := 3, owner := none, name := "all.b.vms.vm1", pfx := "2a", flat := true, setless := "all.b.vms.vm1",
+        setup := [(4, [])], cleanup := [(2, []), (3, [])] }],
+    root := 4 }
+
+def exL1 : State := runSched exLazy 100 (initState exLazy 4 [] [0, 1, 2, 3]) [(0, exNoOut)]
+def exL2 : State := runSched exLazy 100 (initState exLazy 4 [] [0, 1, 2, 3]) [(0, exNoOut), (0, exPass)]
+
+/-- an instance violating `OwnerNames`: the id of worker 0 (`net1`) is a substring of the name of worker 1's copy -/
+def exBad : Graph :=
+  { workers := [{ id := "net1", swarm := "localhost" }, { id := "net11", swarm := "localhost" }],
+    nodes := [
+      { cls := 0, owner := some 1, name := "all.a.vms.vm1.nets.localhost.net11", pfx := "1a1", objs := ["vm1"],
+        setup := [(1, ["vm1"])] },
+      { cls := 1, owner := none, name := "all.internal.stateless.noop", pfx := "1", flat := true, sharedRoot := true,
+        cleanup := [(0, ["vm1"])] }],
+    root := 1 }
+
 end I2N.Trav
